@@ -2,7 +2,7 @@
 import sys, os, json, subprocess, shutil, glob
 prop = sys.argv[1]
 rnd = sys.argv[2] if len(sys.argv) > 2 else ''          # e.g. "r2": reads /tmp/w2_<PROP>, writes seeded/<PROP>_r2_<n>
-wt = f'/tmp/w2_{prop}' if rnd else f'/tmp/wt_{prop}'
+wt = (f'/tmp/w{rnd[1:]}_{prop}' if rnd.startswith('r') else f'/tmp/w2_{prop}') if rnd else f'/tmp/wt_{prop}'
 env = {**os.environ, 'PYTHONPATH': wt, 'PYTHONDONTWRITEBYTECODE': '1'}
 def sh(cmd, **kw):
     return subprocess.run(cmd, shell=True, cwd=wt, capture_output=True, text=True, env=env, **kw)
